@@ -1,0 +1,9 @@
+//go:build verif
+
+package channel
+
+// VerifStagingActions exposes the staging actions of an ActionMachine to the
+// verification harness (read-only use).
+func (m *ActionMachine) VerifStagingActions() []Action {
+	return m.stagingActions
+}
